@@ -24,7 +24,8 @@ LEVEL = 'model_checking'
 LONG = 'L' * 90
 STRINGS = ['', 'a', '<', '>', '&', '"', "'", '"\'', '\n', '\t', ' x ', 'é', '&amp;', ']]>',
            '<a b="c">', 'a\nb', '&#10;', '\U0001f600', LONG, 'x' * 30 + '"' + 'y' * 50, '-', 'a-',
-           'say "hi" now', '" ', ' "', "' ", '"\' "x', 'a="b" c=\'d\'', 'x"\ny', "it's \"q\" "]
+           'say "hi" now', '" ', ' "', "' ", '"\' "x', 'a="b" c=\'d\'', 'x"\ny', "it's \"q\" ",
+           '%', '%%', '%d', '%s', '100%', '%(name)s', '{0}', '{', '\\', '\\n', '$x', '\x7f']
 ATTR_ONLY = ['\r', 'a\r\nb']                 # carriage returns: attributes only (statement)
 COMMENT_STRINGS = [s for s in STRINGS if '--' not in s and not s.endswith('-')] + ['a - b']
 NAMES = ['a', 'c:type']
@@ -448,6 +449,103 @@ def _work_hist(chunk):
     return part.result()
 
 
+
+# ------------------------------------------------------- two writers alive ---
+# Several XMLWriter/GIRWriter objects may be alive in one process.  All interleavings of two short
+# straight-line programs (push/pop/tag/text only) on two writers: each writer's document must be the
+# document the same program produces alone.
+PROGRAMS = [
+    [('push', 'a', [('k', 'A')]), ('tag', 'x', [], 'A1'), ('pop',)],
+    [('push', 'b', []), ('push', 'c', [('k', 'B')]), ('pop',), ('pop',)],
+    [('push', 'd', []), ('text', 'T'), ('push', 'e', [])],
+    [('tag', 'f', [('k', 'v')], None), ('push', 'g', []), ('pop',)],
+    [('push', 'h', []), ('pop',), ('push', 'i', []), ('pop',)],
+    [('push', 'j', [('k', LONG)]), ('comment', 'c'), ('pop',)],
+]
+
+
+def _step(w, op):
+    k = op[0]
+    if k == 'push':
+        w.push_tag(op[1], list(op[2]))
+    elif k == 'pop':
+        w.pop_tag()
+    elif k == 'tag':
+        w.write_tag(op[1], list(op[2]), op[3])
+    elif k == 'text':
+        w.write_line(op[1], do_escape=True)
+    elif k == 'comment':
+        w.write_comment(op[1])
+
+
+def _finish(w):
+    while w._tag_stack:
+        w.pop_tag()
+    return w.get_encoded_xml()
+
+
+def interleavings(n, m):
+    """all 0/1 sequences with n zeros and m ones"""
+    if n == 0:
+        yield (1,) * m
+        return
+    if m == 0:
+        yield (0,) * n
+        return
+    for rest in interleavings(n - 1, m):
+        yield (0,) + rest
+    for rest in interleavings(n, m - 1):
+        yield (1,) + rest
+
+
+def check_two_writers(pa, pb, sched):
+    from giscanner.xmlwriter import XMLWriter
+    docs = []
+    for prog in (pa, pb):          # reference: each program alone
+        w = XMLWriter()
+        w.push_tag('root')
+        for op in prog:
+            _step(w, op)
+        docs.append(_finish(w))
+    ws = [XMLWriter(), XMLWriter()]
+    for w in ws:
+        w.push_tag('root')
+    idx = [0, 0]
+    progs = [pa, pb]
+    try:
+        for who in sched:
+            _step(ws[who], progs[who][idx[who]])
+            idx[who] += 1
+        got = [_finish(w) for w in ws]
+    except Exception as e:
+        return 'writer raised %s: %s' % (type(e).__name__, e)
+    for i in (0, 1):
+        if got[i] != docs[i]:
+            return 'writer %d produced %r, alone it produces %r' % (i, got[i].decode('utf-8', 'replace')[-160:],
+                                                                 docs[i].decode('utf-8', 'replace')[-160:])
+        try:
+            parse(got[i])
+        except xml.parsers.expat.ExpatError as e:
+            return 'writer %d output is not well-formed: %s' % (i, e)
+    return None
+
+
+def _work_two(chunk):
+    part = Part()
+    for ia, ib in chunk:
+        pa, pb = PROGRAMS[ia], PROGRAMS[ib]
+        for sched in interleavings(len(pa), len(pb)):
+            err = check_two_writers(pa, pb, sched)
+            part.add(evaluations=1, transitions=len(sched), traces_validated_against_impl=1, states=1)
+            part.nontrivial(repr((ia, ib, sched)))
+            part.outcome(('two-writers', err is None))
+            if err:
+                part.violation('two-writers:%d:%d:%s' % (ia, ib, ''.join(map(str, sched))), err,
+                               {'two_writers': [ia, ib], 'schedule': list(sched), 'error': err})
+    part.sample({'mode': 'two writers interleaved', 'program_a': PROGRAMS[chunk[0][0]], 'program_b': PROGRAMS[chunk[0][1]]})
+    return part.result()
+
+
 def run(ctx):
     thorough = ctx.tier == 'thorough'
     maxdepth = 4 if thorough else 3
@@ -455,7 +553,7 @@ def run(ctx):
     ctx.set(rule='(a) every (tag-stack state, op) edge for stacks up to depth %d over names %r x kinds push/ctx with the '
                  'full string/attribute menu, whitespace on and off; (b) every op history up to length %d over a '
                  '%d-op menu without state de-duplication. Each edge/history is executed on a fresh XMLWriter, '
-                 'closed, parsed by expat and compared with the reference tree. non-trivial = case whose op '
+                 'closed, parsed by expat and compared with the reference tree; (c) all interleavings of every ordered pair of six straight-line programs on two writers alive at once. non-trivial = case whose op '
                  'carries a string other than ""/a/v (a) or any history (b)' % (maxdepth, NAMES, maxlen, len(SMALL_MENU)),
             bounds={'stack_depth': maxdepth, 'history_len': maxlen, 'menu_full': len(op_menu(ctx.tier)),
                     'menu_small': len(SMALL_MENU)})
@@ -465,6 +563,9 @@ def run(ctx):
         ctx.merge(r)
     hchunks = [(maxlen, maxdepth, [f]) for f in rotate(SMALL_MENU, ctx.seed)]
     for r in pmap(_work_hist, hchunks):
+        ctx.merge(r)
+    pairs = [(i, j) for i in range(len(PROGRAMS)) for j in range(len(PROGRAMS))]
+    for r in pmap(_work_two, chunked(rotate(pairs, ctx.seed), 12)):
         ctx.merge(r)
     ctx.assumptions += [
         'comment text containing "--" or ending in "-" is not representable in an XML comment and is outside the alphabet',
@@ -478,6 +579,12 @@ def run(ctx):
 
 
 def replay(ctx, case):
+    if 'two_writers' in case:
+        ia, ib = case['two_writers']
+        err = check_two_writers(PROGRAMS[ia], PROGRAMS[ib], tuple(case['schedule']))
+        print('programs', PROGRAMS[ia], PROGRAMS[ib], 'schedule', case['schedule'])
+        print('result:', err or 'ok')
+        return err is None
     ops = [tuple(o[:1]) + tuple(_fix(x) for x in o[1:]) for o in case['ops']]
     err, text = check_history(ops, case.get('whitespace', True))
     print('ops:', ops)
